@@ -15,6 +15,9 @@ func addressee(op string) int {
 		return 0
 	}
 	switch f[0] {
+	case "tx":
+		// a signed transaction all of whose messages are addressed to one tenant
+		return monitor.TxAddressee(f)
 	case "deposit", "record", "cancel", "addadmin", "rmadmin", "setperiod":
 		n, err := strconv.Atoi(f[2])
 		if err != nil {
@@ -115,6 +118,9 @@ func isolationCheck(ops []string, full *monitor.Trace, engine string, br map[str
 		alone, _ := runHistory(kept, nil, engine)
 		for j, i := range idx {
 			fs, as := full.Steps[i], alone.Steps[j]
+			if fs.Res != as.Res && (strings.Contains(fs.Detail, "insufficient funds") || strings.Contains(as.Detail, "insufficient funds")) {
+				break // what an account can afford does depend on what else it paid for: not a tenant's view
+			}
 			if projectRes(fs.Res, k) != projectRes(as.Res, k) {
 				return []monitor.Violation{{Property: "C13", Key: "isolation", Step: i,
 					What: fmt.Sprintf("tenant %d: op %q answers %q with the other tenants active and %q alone", k, ops[i], fs.Res, as.Res)}}
